@@ -72,10 +72,10 @@ def Conn.empty : Conn := ⟨fun _ => Inst.blank, 0, fun _ => none, fun _ => none
 def Conn.alive (c : Conn) (j : Nat) : Bool :=
   (c.insts j).held || (c.strong (c.insts j).key == some j)
 
-/-- `CacheFactory.tryGet`: the weak entry first (a dead one answers `None`), then the strong map -/
+/-- `CacheFactory.tryGet`: the weak entry first if its object is alive, else the strong map -/
 def Conn.tryGet (dc : Bool) (c : Conn) (k : Key) : Option Nat :=
   match c.weak k with
-  | some j => if c.alive j then some j else none
+  | some j => if c.alive j then some j else if dc then c.strong k else none
   | none => if dc then c.strong k else none
 
 /-- `CacheFactory.allIDs` membership -/
